@@ -300,8 +300,16 @@ def check_midnight(ctx, rule):
     # (c) parse_isotime maps 24 -> 0 under the test
     pcfg = ctx.cfg(pit)
     pf = ctx.facts(pit)
-    st = [n for n in pcfg.live_nodes() if n.kind == "stmt" and src(n.ast).replace(" ", "") == "components[0]=0"]
-    ctx.ob(rule, pit, "parse_isotime maps hour 24 to 0 (time has no next day)", len(st) == 1 and ("components[0] == 24", True) in pf.at(st[0]), construct="parse_isotime: 24 -> 0")
+    # an assignment of the constant 0 - to the first component or to a local holding it - under the test `<that> == 24`
+    st = []
+    for n in pcfg.live_nodes():
+        if n.kind == "stmt" and isinstance(n.ast, ast.Assign) and len(n.ast.targets) == 1 and isinstance(n.ast.value, ast.Constant) and n.ast.value.value == 0 \
+                and not isinstance(n.ast.value.value, bool):
+            tgt = src(n.ast.targets[0])
+            if any(tv and t.replace(" ", "") in ("%s==24" % tgt.replace(" ", ""), "24==%s" % tgt.replace(" ", "")) for t, tv in pf.at(n)):
+                st.append(n)
+    ctx.ob(rule, pit, "parse_isotime maps hour 24 to 0 (time has no next day)", len(st) == 1, construct="parse_isotime: 24 -> 0",
+           detail="" if len(st) == 1 else "%d assignments of 0 under an `== 24` test" % len(st), analysis="must-hold branch facts")
     # (d) isoparse: +1 day on that path
     icfg = ctx.cfg(iso)
     ifs = ctx.facts(iso)
@@ -518,8 +526,20 @@ def check_arity(ctx, rule):
     ctx.ob(rule, un, "week/ordinal dates produce [year, month, day] of the computed date", u == ["[base_date.year, base_date.month, base_date.day]"], construct="uncommon components", detail=str(u))
     for m, ctor in (("isoparse", "datetime"), ("parse_isodate", "date"), ("parse_isotime", "time")):
         f = prog.method(CLS, m, rule)
-        calls = [src(x) for x in walk_local(f.node) if isinstance(x, ast.Call) and src(x.func) == ctor]
-        ctx.ob(rule, f, "%s builds %s(*components)" % (m, ctor), bool(calls) and all(c == "%s(*components)" % ctor for c in calls), construct="%s: %s" % (m, calls))
+        calls = [x for x in walk_local(f.node) if isinstance(x, ast.Call) and src(x.func) == ctor]
+
+        def spread(c):
+            """`ctor(*C)`, or `ctor(h, *C[1:])` with h a local (the first component, possibly replaced)"""
+            if c.keywords:
+                return False
+            if len(c.args) == 1 and isinstance(c.args[0], ast.Starred) and isinstance(c.args[0].value, ast.Name):
+                return True
+            if len(c.args) == 2 and isinstance(c.args[0], ast.Name) and isinstance(c.args[1], ast.Starred) and isinstance(c.args[1].value, ast.Subscript) \
+                    and isinstance(c.args[1].value.slice, ast.Slice) and src(c.args[1].value.slice).replace(" ", "") == "1:":
+                return True
+            return False
+        ctx.ob(rule, f, "%s builds %s(*components)" % (m, ctor), bool(calls) and all(spread(c) for c in calls), construct="%s: %s(*components)" % (m, ctor),
+               detail=str([src(c) for c in calls]))
     iso = prog.method(CLS, "isoparse", rule)
     cat = [n for n in walk_local(iso.node) if isinstance(n, ast.AugAssign) and src(n.target) == "components"]
     ctx.ob(rule, iso, "datetime arguments are date components followed by time components (3 + 5 = 8 positionals)", len(cat) == 1 and "self._parse_isotime(" in src(cat[0].value) and
